@@ -3,6 +3,7 @@ package harness
 import (
 	"bytes"
 	"fmt"
+	"io"
 	"os"
 	"os/exec"
 	"path/filepath"
@@ -30,13 +31,14 @@ func workDir() string {
 }
 
 type Run struct {
-	Argv      []string          `json:"argv"`
-	Stdin     string            `json:"stdin"`
-	Files     map[string]string `json:"files,omitempty"` // name -> content, created in a private dir; "@name" in argv is replaced by the path
-	Env       []string          `json:"env,omitempty"`
-	OutArg    string            `json:"out_arg,omitempty"`    // name of a file (in the private dir) the command writes; content returned in Result.OutFile
-	NoStdin   bool              `json:"no_stdin,omitempty"`   // standard input is /dev/null (a character device) instead of a pipe
-	StdinFile bool              `json:"stdin_file,omitempty"` // standard input is a regular file holding Stdin (`crd ... < file`)
+	Argv        []string          `json:"argv"`
+	Stdin       string            `json:"stdin"`
+	Files       map[string]string `json:"files,omitempty"` // name -> content, created in a private dir; "@name" in argv is replaced by the path
+	Env         []string          `json:"env,omitempty"`
+	OutArg      string            `json:"out_arg,omitempty"`      // name of a file (in the private dir) the command writes; content returned in Result.OutFile
+	NoStdin     bool              `json:"no_stdin,omitempty"`     // standard input is /dev/null (a character device) instead of a pipe
+	StdinFile   bool              `json:"stdin_file,omitempty"`   // standard input is a regular file holding Stdin (`crd ... < file`)
+	StdinBursts bool              `json:"stdin_bursts,omitempty"` // standard input is a pipe fed in two writes with a pause between them
 }
 
 type Result struct {
@@ -109,6 +111,8 @@ func (r Run) exec1(timeout time.Duration) Result {
 		}
 		defer f.Close()
 		cmd.Stdin = f
+	case r.StdinBursts:
+		cmd.Stdin = &burstReader{data: []byte(r.Stdin)}
 	default:
 		cmd.Stdin = strings.NewReader(r.Stdin)
 	}
@@ -203,4 +207,35 @@ func (res Result) CrashFrame() string {
 
 func crd(stdin string, argv ...string) Result {
 	return Run{Argv: argv, Stdin: stdin}.Exec()
+}
+
+// burstReader hands out its data in two reads with a pause in between, the way a slow producer fills a pipe.
+type burstReader struct {
+	data  []byte
+	state int
+}
+
+func (b *burstReader) Read(p []byte) (int, error) {
+	switch b.state {
+	case 0:
+		b.state = 1
+		n := len(b.data) / 2
+		if n > len(p) {
+			n = len(p)
+		}
+		copy(p, b.data[:n])
+		b.data = b.data[n:]
+		return n, nil
+	case 1:
+		b.state = 2
+		time.Sleep(60 * time.Millisecond)
+		fallthrough
+	default:
+		if len(b.data) == 0 {
+			return 0, io.EOF
+		}
+		n := copy(p, b.data)
+		b.data = b.data[n:]
+		return n, nil
+	}
 }
